@@ -63,10 +63,13 @@ Proof.
   apply Forall_app. split; [assumption|]. apply Forall_forall. intros x Hx. apply repeat_spec in Hx. subst. assumption.
 Qed.
 
+Lemma map_repeat' {A B} (g : A -> B) x k : map g (repeat x k) = repeat (g x) k.
+Proof. induction k; simpl; congruence. Qed.
+
 Lemma map_padded {A B} (g : A -> B) l n f : map g (padded l n f) = padded (map g l) n (g f).
 Proof.
   unfold padded. rewrite map_length. destruct (length l <? n)%nat; [|reflexivity].
-  rewrite map_app, map_repeat. reflexivity.
+  rewrite map_app, map_repeat'. reflexivity.
 Qed.
 
 (* format_length on a list-shaped array, phrased with [padded] *)
